@@ -479,6 +479,394 @@ theorem reconfig_restarts_count (g : Ghost) (r : RL) (now : Nat) (c : Option Cfg
   simp only [hp, hv]
   cases out <;> simp [Ghost.afterPoll]
 
+/-! ## 6. Content: `poll_read` is transparent; EOF and errors pass through -/
+
+/-- Inner tail / poll result for "end of stream" (`none`) or "error `c`" (`some c`). -/
+def termTail : Option Nat → Tail
+  | none => .eof
+  | some c => .err c
+def termOut : Option Nat → PollOutC
+  | none => .eof
+  | some c => .err c
+
+/-- **What one `poll_read` does to the content.**
+* bytes returned: exactly the first `min(ready, buf)` bytes of the inner reader, which keeps the
+  rest (so `RateLimited` itself buffers nothing: it reads into the caller's buffer, hands
+  everything over at once and only charges the bucket afterwards);
+* `Pending` (throttled, or nothing ready): the inner reader is left exactly as it was —
+  a throttled poll consumes nothing;
+* end of stream / error: only when no bytes are left, the inner reader's own answer, unchanged. -/
+theorem rl_poll_content (r r' : RLC) (now buf : Nat) (out : PollOutC)
+    (h : r.poll now buf = some (r', out)) :
+    match out with
+    | .ready bs => r.inner.data ≠ [] ∧ bs = r.inner.data.take (min r.inner.data.length buf) ∧
+        r'.inner = ⟨r.inner.data.drop (min r.inner.data.length buf), r.inner.tail⟩
+    | .pending => r'.inner = r.inner
+    | .eof => r.inner.data = [] ∧ r.inner.tail = .eof ∧ r'.inner = r.inner
+    | .err c => r.inner.data = [] ∧ r.inner.tail = .err c ∧ r'.inner = r.inner := by
+  have hterm : ∀ code, r.inner.data = [] → r.inner.tail = termTail code →
+      r.pollTerminal now code = some (r', out) →
+      (out = .pending ∨ out = termOut code) ∧ r'.inner = r.inner := by
+    intro code _ _ ht
+    unfold RLC.pollTerminal at ht
+    cases hb : (r.rl.applyCfg now).bucket with
+    | none =>
+      simp only [hb, Option.some.injEq, Prod.mk.injEq] at ht
+      obtain ⟨rfl, rfl⟩ := ht
+      exact ⟨Or.inr (by cases code <;> rfl), rfl⟩
+    | some b =>
+      simp only [hb] at ht
+      by_cases hbl : Reader.blocked (r.rl.applyCfg now).sleepUntil now = true
+      · simp only [hbl, if_true, Option.some.injEq, Prod.mk.injEq] at ht
+        obtain ⟨rfl, rfl⟩ := ht
+        exact ⟨Or.inl rfl, rfl⟩
+      · simp only [hbl, Bool.false_eq_true, if_false] at ht
+        cases code with
+        | some c =>
+          simp only [Option.some.injEq, Prod.mk.injEq] at ht
+          obtain ⟨rfl, rfl⟩ := ht
+          exact ⟨Or.inr rfl, rfl⟩
+        | none =>
+          dsimp only at ht
+          cases hc : b.consume 0 now with
+          | none => simp [hc] at ht
+          | some pr =>
+            obtain ⟨b', res⟩ := pr
+            cases res with
+            | none =>
+              simp only [hc, Option.some.injEq, Prod.mk.injEq] at ht
+              obtain ⟨rfl, rfl⟩ := ht
+              exact ⟨Or.inr rfl, rfl⟩
+            | some d =>
+              simp only [hc, Option.some.injEq, Prod.mk.injEq] at ht
+              obtain ⟨rfl, rfl⟩ := ht
+              exact ⟨Or.inr rfl, rfl⟩
+  unfold RLC.poll at h
+  split at h
+  · rename_i hd htl
+    obtain ⟨ho, hi⟩ := hterm none hd htl h
+    rcases ho with rfl | rfl
+    · exact hi
+    · exact ⟨hd, htl, hi⟩
+  · rename_i c hd htl
+    obtain ⟨ho, hi⟩ := hterm (some c) hd htl h
+    rcases ho with rfl | rfl
+    · exact hi
+    · exact ⟨hd, htl, hi⟩
+  · cases hp : ({ r.rl with avail := r.inner.data.length } : RL).poll now buf with
+    | none => simp [hp] at h
+    | some pr =>
+      obtain ⟨rl', o⟩ := pr
+      have hcnt := rl_poll_count _ _ now buf o hp
+      cases o with
+      | pending =>
+        simp only [hp, Option.some.injEq, Prod.mk.injEq] at h
+        obtain ⟨rfl, rfl⟩ := h
+        rfl
+      | ready n =>
+        simp only [hp, Option.some.injEq, Prod.mk.injEq] at h
+        obtain ⟨rfl, rfl⟩ := h
+        obtain ⟨hne, hn⟩ := hcnt.1 n rfl
+        dsimp only at hne hn
+        subst hn
+        refine ⟨?_, rfl, rfl⟩
+        intro hnil; rw [hnil] at hne; exact hne rfl
+
+/-- Events of a content-level history. -/
+inductive EvC where
+  /-- more bytes arrive at the inner reader -/
+  | data (bytes : List UInt8)
+  /-- the inner reader will answer EOF / an error once its bytes are used up (or `open` again) -/
+  | close (t : Tail)
+  /-- live reconfiguration through the watch channel -/
+  | send (c : Option Cfg)
+  /-- `poll_read` at time `now` with `buf` bytes of room -/
+  | poll (now buf : Nat)
+
+/-- One event; returns the bytes handed to the caller by it.  `none` = panic. -/
+def RLC.step (r : RLC) : EvC → Option (RLC × List UInt8)
+  | .data bs => some ({ r with inner := { r.inner with data := r.inner.data ++ bs } }, [])
+  | .close t => some ({ r with inner := { r.inner with tail := t } }, [])
+  | .send c => some ({ r with rl := { r.rl with pendingCfg := some c } }, [])
+  | .poll now buf =>
+    match r.poll now buf with
+    | none => none
+    | some (r', .ready bs) => some (r', bs)
+    | some (r', _) => some (r', [])
+
+/-- A whole history; returns everything handed to the caller, in order. -/
+def RLC.run (r : RLC) : List EvC → Option (RLC × List UInt8)
+  | [] => some (r, [])
+  | e :: rest =>
+    match r.step e with
+    | none => none
+    | some (r1, o1) =>
+      match RLC.run r1 rest with
+      | none => none
+      | some (r2, o2) => some (r2, o1 ++ o2)
+
+/-- All bytes that arrived at the inner reader during a history, in order. -/
+def arrived : List EvC → List UInt8
+  | [] => []
+  | .data bs :: rest => bs ++ arrived rest
+  | _ :: rest => arrived rest
+
+/-- **Transparency.**  For every history of data arrivals, EOF/error marks, live
+reconfigurations and polls at arbitrary times with arbitrary buffer sizes:
+`handed over ++ still unread in the inner reader = the inner reader's byte stream`.
+So the caller receives exactly a prefix of the inner stream, in order — nothing dropped,
+duplicated, reordered or held back inside `RateLimited`. -/
+theorem rl_transparent (r r' : RLC) (evs : List EvC) (out : List UInt8)
+    (h : r.run evs = some (r', out)) :
+    out ++ r'.inner.data = r.inner.data ++ arrived evs := by
+  induction evs generalizing r out with
+  | nil =>
+    simp only [RLC.run, Option.some.injEq, Prod.mk.injEq] at h
+    obtain ⟨rfl, rfl⟩ := h
+    simp [arrived]
+  | cons e rest ih =>
+    simp only [RLC.run] at h
+    cases hs : r.step e with
+    | none => simp [hs] at h
+    | some pr =>
+      obtain ⟨r1, o1⟩ := pr
+      simp only [hs] at h
+      cases hr : r1.run rest with
+      | none => simp [hr] at h
+      | some pr2 =>
+        obtain ⟨r2, o2⟩ := pr2
+        simp only [hr, Option.some.injEq, Prod.mk.injEq] at h
+        obtain ⟨rfl, rfl⟩ := h
+        have ih' := ih r1 o2 hr
+        rw [List.append_assoc, ih']
+        cases e with
+        | data bs =>
+          simp only [RLC.step, Option.some.injEq, Prod.mk.injEq] at hs
+          obtain ⟨rfl, rfl⟩ := hs
+          simp [arrived]
+        | close t =>
+          simp only [RLC.step, Option.some.injEq, Prod.mk.injEq] at hs
+          obtain ⟨rfl, rfl⟩ := hs
+          simp [arrived]
+        | send c =>
+          simp only [RLC.step, Option.some.injEq, Prod.mk.injEq] at hs
+          obtain ⟨rfl, rfl⟩ := hs
+          simp [arrived]
+        | poll now buf =>
+          simp only [RLC.step] at hs
+          cases hp : r.poll now buf with
+          | none => simp [hp] at hs
+          | some pr3 =>
+            obtain ⟨r3, o⟩ := pr3
+            have hc := rl_poll_content r r3 now buf o hp
+            cases o with
+            | ready bs =>
+              simp only [hp, Option.some.injEq, Prod.mk.injEq] at hs
+              obtain ⟨rfl, rfl⟩ := hs
+              obtain ⟨-, hbs, hin⟩ := hc
+              rw [hin, hbs]
+              simp only [arrived]
+              rw [← List.append_assoc, List.take_append_drop]
+            | pending =>
+              simp only [hp, Option.some.injEq, Prod.mk.injEq] at hs
+              obtain ⟨rfl, rfl⟩ := hs
+              dsimp only at hc; rw [hc]; simp [arrived]
+            | eof =>
+              simp only [hp, Option.some.injEq, Prod.mk.injEq] at hs
+              obtain ⟨rfl, rfl⟩ := hs
+              rw [hc.2.2]; simp [arrived]
+            | err c =>
+              simp only [hp, Option.some.injEq, Prod.mk.injEq] at hs
+              obtain ⟨rfl, rfl⟩ := hs
+              rw [hc.2.2]; simp [arrived]
+
+/-- `poll_read` never panics at content level either (any inner state, EOF and errors included). -/
+theorem rlc_poll_total (r : RLC) (now buf : Nat) (hw : RLWF r.rl)
+    (hc : ∀ c, r.rl.pendingCfg = some (some c) → CfgOK c) :
+    ∃ r' out, r.poll now buf = some (r', out) ∧ RLWF r'.rl ∧ r'.rl.pendingCfg = none := by
+  have hw1 := applyCfg_wf r.rl now hw hc
+  have hpc : (r.rl.applyCfg now).pendingCfg = none := by
+    unfold RL.applyCfg
+    cases hp : r.rl.pendingCfg with
+    | none => simp [hp]
+    | some cfg => dsimp only; cases fromConfig cfg now <;> rfl
+  have hterm : ∀ code, ∃ r' out, r.pollTerminal now code = some (r', out) ∧ RLWF r'.rl ∧
+      r'.rl.pendingCfg = none := by
+    intro code
+    unfold RLC.pollTerminal
+    cases hb : (r.rl.applyCfg now).bucket with
+    | none => simp only [hb]; exact ⟨_, _, rfl, hw1, hpc⟩
+    | some b =>
+      simp only [hb]
+      by_cases hbl : Reader.blocked (r.rl.applyCfg now).sleepUntil now = true
+      · simp only [hbl, if_true]; exact ⟨_, _, rfl, hw1, hpc⟩
+      · simp only [hbl, Bool.false_eq_true, if_false]
+        cases code with
+        | some c => exact ⟨_, _, rfl, fun b' hb' => hw1 b' (by rw [hb]; exact hb'), hpc⟩
+        | none =>
+          obtain ⟨b', res, hcons, hwb⟩ := consume_total b 0 now (hw1 b hb)
+          simp only [hcons]
+          cases res with
+          | none => exact ⟨_, _, rfl, fun b'' hb'' => by cases hb''; exact hwb, hpc⟩
+          | some d => exact ⟨_, _, rfl, fun b'' hb'' => by cases hb''; exact hwb, hpc⟩
+  unfold RLC.poll
+  split
+  · exact hterm none
+  · exact hterm _
+  · obtain ⟨rl', o, hp, hw', hpc'⟩ := poll_total ({ r.rl with avail := r.inner.data.length }) now buf
+      (fun b hb => hw b hb) hc
+    rw [hp]
+    cases o with
+    | ready n => exact ⟨_, _, rfl, hw', hpc'⟩
+    | pending => exact ⟨_, _, rfl, hw', hpc'⟩
+
+/-- The instant at which the reader may poll the inner reader again. -/
+def nextDue (r : RLC) (now : Nat) : Nat :=
+  match r.rl.sleepUntil with
+  | some d => max now d
+  | none => now
+
+/-- Poll whenever the current throttle deadline has passed, until the inner reader's ready
+bytes are used up (at most `fuel` polls).  Returns final state, clock and the bytes handed over. -/
+def RLC.drain (r : RLC) (now buf : Nat) : Nat → Option (RLC × Nat × List UInt8)
+  | 0 => some (r, now, [])
+  | fuel + 1 =>
+    if r.inner.data = [] then some (r, now, []) else
+    match r.poll (nextDue r now) buf with
+    | some (r', .ready bs) =>
+      match RLC.drain r' (nextDue r now) buf fuel with
+      | some (r'', t, out) => some (r'', t, bs ++ out)
+      | none => none
+    | _ => none
+
+/-- **Every inner byte is eventually handed over.**  A caller that polls (with a non-empty
+buffer) each time the throttle deadline has passed — a finite instant by
+`deadline_future_and_finite` — receives *all* bytes of the inner reader, in order, within as many
+polls as there are bytes; no poll of that schedule is refused (`poll_reads_when_due`). -/
+theorem rl_transparent_eventually (fuel : Nat) (r : RLC) (now buf : Nat) (hw : RLWF r.rl)
+    (hpc : r.rl.pendingCfg = none) (hbuf : 0 < buf) (hf : r.inner.data.length ≤ fuel) :
+    ∃ r' t, r.drain now buf fuel = some (r', t, r.inner.data) ∧ r'.inner.data = [] ∧
+      r'.inner.tail = r.inner.tail ∧ now ≤ t := by
+  induction fuel generalizing r now with
+  | zero =>
+    have : r.inner.data = [] := List.eq_nil_of_length_eq_zero (by omega)
+    exact ⟨r, now, by simp [RLC.drain, this], this, rfl, Nat.le_refl _⟩
+  | succ fuel ih =>
+    unfold RLC.drain
+    by_cases hd : r.inner.data = []
+    · simp only [hd, if_true]; exact ⟨r, now, rfl, hd, rfl, Nat.le_refl _⟩
+    · simp only [hd, if_false]
+      have hlen : 0 < r.inner.data.length := List.length_pos_iff.2 hd
+      have hge : now ≤ nextDue r now := by
+        unfold nextDue; cases r.rl.sleepUntil <;> simp <;> omega
+      -- the count-level poll at the due time returns min(len, buf) bytes
+      have hcfg : ∀ c, ({ r.rl with avail := r.inner.data.length } : RL).pendingCfg = some (some c) → CfgOK c := by
+        intro c hc; dsimp only at hc; rw [hpc] at hc; cases hc
+      have hdue : ∀ d, (({ r.rl with avail := r.inner.data.length } : RL).applyCfg (nextDue r now)).sleepUntil = some d →
+          (({ r.rl with avail := r.inner.data.length } : RL).applyCfg (nextDue r now)).bucket ≠ none →
+          d ≤ nextDue r now := by
+        intro d hs _
+        rw [applyCfg_of_no_pending _ _ (by exact hpc)] at hs
+        dsimp only at hs
+        unfold nextDue; rw [hs]; exact Nat.le_max_right _ _
+      obtain ⟨rl', hp⟩ := poll_reads_when_due ({ r.rl with avail := r.inner.data.length }) (nextDue r now) buf
+        (fun b hb => hw b hb) hcfg hlen hdue
+      obtain ⟨rl'', o, hp', hw', hpc'⟩ := poll_total ({ r.rl with avail := r.inner.data.length }) (nextDue r now) buf
+        (fun b hb => hw b hb) hcfg
+      rw [hp] at hp'
+      simp only [Option.some.injEq, Prod.mk.injEq] at hp'
+      obtain ⟨rfl, -⟩ := hp'
+      dsimp only at hp
+      -- content-level poll
+      have hpoll : r.poll (nextDue r now) buf =
+          some (⟨rl', ⟨r.inner.data.drop (min r.inner.data.length buf), r.inner.tail⟩⟩,
+            .ready (r.inner.data.take (min r.inner.data.length buf))) := by
+        unfold RLC.poll
+        cases hdata : r.inner.data with
+        | nil => exact absurd hdata hd
+        | cons x xs =>
+          rw [hdata] at hp
+          simp only [hp]
+      rw [hpoll]
+      dsimp only
+      have hmin : 1 ≤ min r.inner.data.length buf := by omega
+      obtain ⟨r'', t, hdr, hnil, htl, ht⟩ := ih
+        ⟨rl', ⟨r.inner.data.drop (min r.inner.data.length buf), r.inner.tail⟩⟩ (nextDue r now) hw' hpc'
+        (by simp only [List.length_drop]; omega)
+      rw [hdr]
+      dsimp only
+      exact ⟨r'', t, by rw [List.take_append_drop], hnil, htl, by omega⟩
+
+/-- **EOF and inner errors pass through unchanged and are not delayed beyond the throttle
+deadline.**  With no bytes left and the inner reader at EOF (`code = none`) or failing with
+error `c` (`code = some c`):
+(a) if no limit is in effect, or no refill wait is pending at `now`, the poll returns exactly
+    that EOF / that error, at once;
+(b) otherwise the poll is `Pending` on the refill wait, without touching the inner reader; and
+(c) any poll at or after that wait's deadline `d` returns the EOF / error. -/
+theorem rl_eof_and_errors_pass_through (r : RLC) (now buf : Nat) (code : Option Nat) (hw : RLWF r.rl)
+    (hc : ∀ c, r.rl.pendingCfg = some (some c) → CfgOK c)
+    (hd : r.inner.data = []) (ht : r.inner.tail = termTail code) :
+    ((r.rl.applyCfg now).bucket = none ∨ Reader.blocked (r.rl.applyCfg now).sleepUntil now = false →
+      ∃ r', r.poll now buf = some (r', termOut code) ∧ r'.inner = r.inner) ∧
+    ((r.rl.applyCfg now).bucket ≠ none → Reader.blocked (r.rl.applyCfg now).sleepUntil now = true →
+      r.poll now buf = some (⟨r.rl.applyCfg now, r.inner⟩, .pending) ∧
+      ∀ d, (r.rl.applyCfg now).sleepUntil = some d → ∀ now', d ≤ now' →
+        ∃ r'', (⟨r.rl.applyCfg now, r.inner⟩ : RLC).poll now' buf = some (r'', termOut code) ∧
+          r''.inner = r.inner) := by
+  have hw1 := applyCfg_wf r.rl now hw hc
+  have hpc : (r.rl.applyCfg now).pendingCfg = none := by
+    unfold RL.applyCfg
+    cases hp : r.rl.pendingCfg with
+    | none => simp [hp]
+    | some cfg => dsimp only; cases fromConfig cfg now <;> rfl
+  -- the poll is the terminal branch
+  have hbranch : ∀ (q : RLC) (t : Nat), q.inner.data = [] → q.inner.tail = termTail code →
+      q.poll t buf = q.pollTerminal t code := by
+    intro q t hqd hqt
+    unfold RLC.poll
+    rw [hqd, hqt]
+    cases code <;> rfl
+  -- the terminal branch when not blocked
+  have hgo : ∀ (q : RLC) (t : Nat), RLWF (q.rl.applyCfg t) →
+      ((q.rl.applyCfg t).bucket = none ∨ Reader.blocked (q.rl.applyCfg t).sleepUntil t = false) →
+      ∃ r', q.pollTerminal t code = some (r', termOut code) ∧ r'.inner = q.inner := by
+    intro q t hq hnb
+    unfold RLC.pollTerminal
+    cases hb : (q.rl.applyCfg t).bucket with
+    | none => simp only [hb]; exact ⟨⟨q.rl.applyCfg t, q.inner⟩, by cases code <;> rfl, rfl⟩
+    | some b =>
+      have hbl : Reader.blocked (q.rl.applyCfg t).sleepUntil t = false := by
+        rcases hnb with h | h
+        · rw [hb] at h; cases h
+        · exact h
+      simp only [hb, hbl, Bool.false_eq_true, if_false]
+      cases code with
+      | some c => exact ⟨_, rfl, rfl⟩
+      | none =>
+        obtain ⟨b', res, hcons, -⟩ := consume_total b 0 t (hq b hb)
+        simp only [hcons]
+        cases res <;> exact ⟨_, rfl, rfl⟩
+  refine ⟨?_, ?_⟩
+  · intro hnb
+    rw [hbranch r now hd ht]
+    exact hgo r now hw1 hnb
+  · intro hbk hbl
+    refine ⟨?_, ?_⟩
+    · rw [hbranch r now hd ht]
+      unfold RLC.pollTerminal
+      cases hb : (r.rl.applyCfg now).bucket with
+      | none => exact absurd hb hbk
+      | some b => simp only [hb, hbl, if_true]
+    · intro d hs now' hle
+      have hid : (r.rl.applyCfg now).applyCfg now' = r.rl.applyCfg now := applyCfg_of_no_pending _ _ hpc
+      rw [hbranch ⟨r.rl.applyCfg now, r.inner⟩ now' hd ht]
+      apply hgo ⟨r.rl.applyCfg now, r.inner⟩ now'
+      · dsimp only; rw [hid]; exact hw1
+      · right
+        dsimp only; rw [hid]
+        unfold Reader.blocked; rw [hs]; simp; omega
+
 /-! ## 5. Non-vacuity -/
 
 -- the relay's default 100 ms bucket at 1000 B/s: burst 100, refill 100 per period
@@ -500,5 +888,14 @@ example : RLReach 4096 ⟨some ⟨100, 100, 0, 100, 100⟩, none, none, 0, 0⟩ 
 example : ReaderReach 4096 ⟨100, 100, 0, 100, 100⟩ 0 ⟨⟨-3996, 100, 0, 100, 100⟩, some 4000⟩ 4096 0 0 :=
   ReaderReach.read (C := 4096) (b0 := ⟨100, 100, 0, 100, 100⟩) 0 4096 _ (ReadOut.err 4000) ReaderReach.init
     (Nat.le_refl _) (Nat.le_refl _) (by decide) (by decide)
+
+-- content level: a throttled reader hands over the inner bytes in order, then the EOF
+example : (⟨⟨some ⟨100, 100, 0, 100, 100⟩, none, none, 0, 0⟩, ⟨[1, 2, 3, 4, 5], .eof⟩⟩ : RLC).run
+    [.poll 0 3, .poll 0 3, .data [6], .poll 0 9, .poll 0 9] =
+    some (⟨⟨some ⟨94, 100, 0, 100, 100⟩, none, none, 0, 0⟩, ⟨[], .eof⟩⟩, [1, 2, 3, 4, 5, 6]) := by decide
+example : (⟨⟨some ⟨-46, 100, 0, 100, 100⟩, some 100, none, 1, 0⟩, ⟨[], .err 2⟩⟩ : RLC).poll 50 8 =
+    some (⟨⟨some ⟨-46, 100, 0, 100, 100⟩, some 100, none, 1, 0⟩, ⟨[], .err 2⟩⟩, .pending) := by decide
+example : ((⟨⟨some ⟨-46, 100, 0, 100, 100⟩, some 100, none, 1, 0⟩, ⟨[], .err 2⟩⟩ : RLC).poll 100 8).map (·.2) =
+    some (.err 2) := by decide
 
 end IrohModel.C09
